@@ -4,9 +4,37 @@ from props import P
 P("C24",
   title="Interleaved address conversion is consistent and order-preserving",
   design_ref="DESIGN.md §3 C24",
-  technique="Coq proof (div/mod over N with explicit 2^64 wrap) + exact model/impl correspondence by vm_compute",
-  level_text="under construction",
-  level_note="under construction",
-  assumptions=[],
-  trusted=[],
+  technique="Coq proof (div/mod uniqueness over N with explicit 2^64 wrap, Go int conversions) + exact model/impl "
+            "correspondence by vm_compute on converter, ConvertAddress, both port mappers and the bank dispatch of a real component",
+  level_text="Theorems c24_* prove, for every size s>=1, element count 1<=n<2^63 with s*n<2^64, index, offset and 64-bit address: "
+             "the (fixed) converter accepts exactly the owned addresses, is strictly increasing and one-to-one on them, maps stripe k "
+             "of element i contiguously onto [k*s,(k+1)*s), has the explicit two-sided inverse to_external (onto), and panics on "
+             "addresses below the offset / owned by another element / for indices outside [0,n) / for size or count 0 "
+             "(c24_owned_bijection_ordered, c24_reject_foreign, c24_accepts_iff_owned, c24_degenerate_config_panics); "
+             "ConvertExternalToInternal and ConvertAddress agree (c24_entry_points_agree); the interleaved port mapper picks index i "
+             "exactly for the addresses >= offset that converter i accepts IF AND ONLY IF n = 1 or offset is a multiple of s*n "
+             "(c24_mapper_agrees, c24_mapper_agrees_iff), names the owner rotated by offset/s when offset is a multiple of s "
+             "(c24_mapper_rotation), with vm_compute witnesses c24_mapper_agrees_refuted, c24_round_overflow_refuted (s*n wraps) "
+             "and the pre-fix regression c24_monotone_old_refuted. c24_model_agreement_implies_property links Exec.holds_on to the model.",
+  level_note="Trusted: Coq kernel + vm_compute; the Go harness that calls mem.InterleavingConverter / mem.ConvertAddress / "
+             "InterleavedAddressPortMapper.Find / BankedAddressPortMapper.Find and, for the unexported selectBank/bankSelectionAddress, "
+             "builds a real simplebankedmemory component, delivers one read request and reads the chosen bank from the State JSON; "
+             "the hand-written model (tied by exact equality on directed boundary sweeps, values near 2^64, wrapping size*count, "
+             "negative Go ints, and random inputs).",
+  assumptions=[
+      "uint64 arithmetic of Go = arithmetic modulo 2^64; uint64(int) and int(uint64) are two's-complement reinterpretations on a 64-bit "
+      "platform; log.Panic, integer division by zero and index out of range are all the outcome Panic",
+      "no-overflow side condition of the bijection theorems: 1 <= s, 1 <= n < 2^63, s*n < 2^64 (c24_round_overflow_refuted shows the "
+      "statement is false of the code when s*n wraps); surjectivity is stated for internal addresses whose preimage is < 2^64",
+      "configuration constraint for the mapper clause: InterleavedAddressPortMapper has no offset field (it computes address/s mod n), "
+      "so mapper and converters agree exactly when n = 1 or offset is a multiple of s*n (proved as an equivalence). No configuration in "
+      "/repo violates it: Offset / BankAddrOffset is never set to a non-zero value outside this harness (README example uses Offset: 0; "
+      "all mappers are built without address limitation and are paired with offset 0). holds_on checks the agreement only under this "
+      "condition, the rotation law under offset mod s = 0, and nothing about the mapper otherwise",
+      "the agreement compares addresses at or above the offset; below the offset every converter rejects while the mapper still answers",
+  ],
+  trusted=["modelled, not verified: mem/addressconverter.go (ConvertExternalToInternal), mem/addrconv.go (ConvertAddress), "
+           "mem/addresstoportmapper.go (InterleavedAddressPortMapper.Find, BankedAddressPortMapper.Find), "
+           "mem/simplebankedmemory/comp.go (selectBank, bankSelectionAddress) + the range check in dispatchmw.go; "
+           "SinglePortMapper is a constant and is not modelled"],
   )
